@@ -99,4 +99,10 @@ CHECKS = {
         'driver-before-reader order cut at state elements, longest-path levels, line order, mirrored reverse order, fan-in sandwich (combinational-path set <= yielded <= any-path set, equality for combinational circuits); '
         'prefix lookups ordered LSB to MSB for bracket / underscore / plain index styles, gaps, two dimensions.',
    note='Exhaustive within the bound only. Known finding: fanin() omits state elements that feed the cone through an intermediate node.'),
+ 'C11': dict(engine='E1-lanes behind the real parsers', category='model_checking', design_ref='DESIGN.md §5 C11, §7',
+   technique='rendered netlist texts (enumerated) through the real Verilog/bench parsers and resolve_tlib_cells, then symbolic execution of the real LogicSim and z3 equality with the ground-truth function of the described netlist',
+   text='For each ground-truth netlist (buses with ascending/descending/one-bit ranges, bit selects, concatenations, sized constants, chained assigns, multi-output cells, flip-flops, escaped identifiers) and each textual rendering '
+        '(declaration styles, statement order, pin order, comments, attributes, whitespace, both branchforks settings) z3 proves that every output port - compared by position - and every state element computes the described function for all stimuli; '
+        'bench and Verilog renderings of the same netlist are both proved equal to the ground truth, hence equivalent; branchforks only adds forks.',
+   note='The text dimension is enumerated by the renderer in checks/c11.py (trusted with its evaluator and the C19 data-sheet table). Positional pin connections and hierarchical Verilog outside the claim.'),
 }
